@@ -422,7 +422,7 @@ def build(L):
     return d
   if L.get('post_set') and L['cls'] != 'SDevice':
     L0 = dict(L)
-    post = [k for k in ('a', 'b', 'c', 'p_l', 'p_h') if k in L['post_set']]
+    post = [k for k in (('a', 'b', 'c', 'p_h', 'p_l') if L.get('ph_first') else ('a', 'b', 'c', 'p_l', 'p_h')) if k in L['post_set']]
     L0['post_set'] = None
     L0['omit'] = post
     d = build(L0)
@@ -454,7 +454,10 @@ def build(L):
   omit = L.get('omit') or []
 
   def kwargs(**kw):
-    return {k: v for k, v in kw.items() if k not in omit}
+    kw = {k: v for k, v in kw.items() if k not in omit}
+    if L.get('ph_first') and 'p_h' in kw and 'p_l' in kw:      # keyword order is setter order: the high slope assigned before the low one
+      kw = {'p_h': kw['p_h'], 'p_l': kw['p_l']}
+    return kw
   if cls == 'CDevice':
     return call(dk.CDevice, i, n, bounds, cb, **kwargs(a=float(L['a']), b=float(L['b'])))
   if cls == 'CDevice2':
@@ -620,7 +623,7 @@ def leaf_from_json(J):
   if L.get('cbounds') is not None:
     L['cbounds'] = [(F(a), F(b), int(s), int(e)) for a, b, s, e in L['cbounds']]
   for k, v in list(L.items()):
-    if k in ('n', 'cls', 'id', 'cb_kind', 'bounds', 'cbounds', 'f', 'ucons', 'rate_clip', 'post_set', 'rebound', 'warm', 'omit', 'recb', 'twice', 'nd', 'intb', 'pwarm'):
+    if k in ('n', 'cls', 'id', 'cb_kind', 'bounds', 'cbounds', 'f', 'ucons', 'rate_clip', 'post_set', 'rebound', 'warm', 'omit', 'recb', 'twice', 'nd', 'intb', 'pwarm', 'ph_first'):
       continue
     if isinstance(v, int) and not isinstance(v, bool):
       L[k] = F(v)
